@@ -250,9 +250,10 @@ func cmdReplay(args []string) error {
 				continue
 			}
 			if !expr.Same(expr.FromAST(ast.(grammar.Expression)), tree, false) {
-				out.Skipped++
-				out.SkipWhy["parses to a different tree"]++
-				continue
+				// the real parser reads the text as another tree (never on the unchanged tree; the renderings are validated
+				// against the reference grammar by C16): the case stays in - what Evaluate returns for this text is still
+				// compared with what the text denotes
+				out.SkipWhy["parses to a different tree (evaluated anyway)"]++
 			}
 			for ci, cfg := range cfgs {
 				ev, o := run.Create(text, cfg.Options()...)
